@@ -884,7 +884,7 @@ class Scene(Geometry3D):
         Does this by changing the base frame to a new, offset
         base frame.
         """
-        if self.is_empty or np.allclose(self.centroid, 0.0):
+        if self.is_empty or not np.any(self.centroid):
             # early exit since what we want already exists
             return
 
